@@ -11,7 +11,6 @@ LIB-SSE CODE
 @description: BitSet Class
 """
 
-import math
 from collections.abc import Sequence
 
 from toolkit.bytes_utils import int_from_bytes
@@ -74,10 +73,7 @@ class Bitset(Sequence):
             raise ValueError("The bit length of value if larger than given length.")
 
         self.value = value
-        try:
-            self.length = length or math.floor(math.log(value, 2)) + 1
-        except Exception:
-            self.length = 0
+        self.length = length or value.bit_length()
 
     def __and__(self, other):
         b = Bitset(self.value & int(other))
